@@ -10,6 +10,7 @@ Copyright 2019, 2020, 2021 William W. Kimball, Jr. MBA MSIS
 import sys
 import argparse
 import json
+from copy import deepcopy
 from os import access, R_OK
 from os.path import isfile
 from typing import Any, Dict, Generator, List, Optional, Tuple
@@ -775,8 +776,11 @@ def print_results(
             for node_coordinate in processor.get_nodes(result, mustexist=True):
                 node = node_coordinate.node
                 if isinstance(node, (dict, list, CommentedSet)):
+                    # Render a copy because jsonify_yaml_data converts its
+                    # argument in place (dropping Anchors), which would
+                    # otherwise corrupt the document still being reported.
                     resline += "{}".format(
-                        json.dumps(Parsers.jsonify_yaml_data(node)))
+                        json.dumps(Parsers.jsonify_yaml_data(deepcopy(node))))
                 else:
                     resline += "{}".format(str(node).replace("\n", r"\n"))
                 break
